@@ -31,13 +31,13 @@ theorem C13_features_sorted (reg : List (String × Bool)) (names : List String)
     (hreg : (reg.map (·.1)).Nodup) (fs : List (String × Bool)) (h : findFeatures reg names o = .ok fs) :
     fs.Pairwise (fun a b => a.1 < b.1) := by
   unfold findFeatures at h
-  cases hc : collect reg names [] with
+  cases hc : collect reg names false [] with
   | error e => rw [hc] at h; cases h
   | ok r =>
     rw [hc] at h
     injection h with h
     subst h
-    have hk := collect_keys_nodup reg hreg names [] r (by simp [keys]) hc
+    have hk := collect_keys_nodup reg hreg names false [] r (by simp [keys]) hc
     apply sortByName_sorted
     unfold keys at *
     exact ((ho r).map _).nodup_iff.2 hk
